@@ -84,10 +84,12 @@ func main() {
 			go func() {
 				defer wg.Done()
 				io.Copy(backendConn, conn)
+				connection.CloseWrite(backendConn)
 			}()
 			go func() {
 				defer wg.Done()
 				io.Copy(conn, backendConn)
+				connection.CloseWrite(conn)
 			}()
 			wg.Wait()
 		}()
